@@ -40,7 +40,7 @@ def run(chk, prog):
     for f in m.setup + list(m.fns.values()):
         chk.used(f)
     S.lemmas(chk, prog)
-    ops = m.OPS
+    ops = m.ops
     flat = {op: m.flat(op) for op in ops}
     n1 = 0
     for op2 in ops:
